@@ -22,18 +22,20 @@ import (
 // c16Style selects one equivalent way of writing a configuration. The zero value is the canonical
 // rendering: one directive per line, registered spelling, quotes only where needed, one string.
 type c16Style struct {
-	DirCase   int    `json:"dircase,omitempty"`  // 0 as registered, 1 lower, 2 upper, 3 mixed
-	ActCase   int    `json:"actcase,omitempty"`  // same, per action name
-	Quote     int    `json:"quote,omitempty"`    // 0 only where needed, 1 every value, 2 random
-	RxQuote   int    `json:"rxquote,omitempty"`  // regex keys in single quotes: 0 never, 1 always, 2 random
-	Cont      int    `json:"cont,omitempty"`     // continuations: 0 none, 1 at every token boundary, 2 random
-	Indent    bool   `json:"indent,omitempty"`   // leading / trailing blanks on physical lines
-	Comments  bool   `json:"comments,omitempty"` // comment and blank lines between directives
-	CRLF      bool   `json:"crlf,omitempty"`
-	ActSpace  bool   `json:"actspace,omitempty"` // blanks after the commas of an action list
-	TokSpace  bool   `json:"tokspace,omitempty"` // several blanks between directive arguments
+	DirCase  int  `json:"dircase,omitempty"`  // 0 as registered, 1 lower, 2 upper, 3 mixed
+	ActCase  int  `json:"actcase,omitempty"`  // same, per action name
+	Quote    int  `json:"quote,omitempty"`    // 0 only where needed, 1 every value, 2 random
+	RxQuote  int  `json:"rxquote,omitempty"`  // regex keys in single quotes: 0 never, 1 always, 2 random
+	Cont     int  `json:"cont,omitempty"`     // continuations: 0 none, 1 at every token boundary, 2 random
+	Indent   bool `json:"indent,omitempty"`   // leading / trailing blanks on physical lines
+	Comments bool `json:"comments,omitempty"` // comment and blank lines between directives
+	CRLF     bool `json:"crlf,omitempty"`
+	ActSpace bool `json:"actspace,omitempty"` // blanks after the commas of an action list
+	TokSpace bool `json:"tokspace,omitempty"` // several blanks between directive arguments
+	ValSpace bool `json:"valspace,omitempty"` // blanks between ':' and the value, and between the value and the next ','
+
 	NoFinalNL bool   `json:"nofinalnl,omitempty"`
-	Split     string `json:"split,omitempty"` // "", strings, include-flat, include-nested, include-mid, include-glob, include-file, include-real
+	Split     string `json:"split,omitempty"` // "", strings, include-flat, include-nested, include-mid, include-glob, include-file, include-real, include-settings
 	Files     int    `json:"files,omitempty"` // 1..4
 	Seed      uint64 `json:"seed,omitempty"`
 }
@@ -70,6 +72,9 @@ func (s c16Style) features() []string {
 	if s.TokSpace {
 		f = append(f, "argument-spacing")
 	}
+	if s.ValSpace {
+		f = append(f, "value-spacing")
+	}
 	if s.NoFinalNL {
 		f = append(f, "no-final-newline")
 	}
@@ -103,6 +108,8 @@ func (s c16Style) only(feature string) c16Style {
 		o.ActSpace = true
 	case "argument-spacing":
 		o.TokSpace = true
+	case "value-spacing":
+		o.ValSpace = true
 	case "no-final-newline":
 		o.NoFinalNL = true
 	default:
@@ -111,7 +118,9 @@ func (s c16Style) only(feature string) c16Style {
 	return o
 }
 
-var c16Splits = []string{"strings", "include-flat", "include-nested", "include-mid", "include-glob", "include-file", "include-real"}
+// include-settings: every settings directive (SecDefaultAction) moves into an included file of its
+// own (sometimes one level deeper); the rules that rely on it stay in the including text.
+var c16Splits = []string{"strings", "include-flat", "include-nested", "include-mid", "include-glob", "include-file", "include-real", "include-settings"}
 
 func c16RandomStyle(r *rand.Rand) c16Style {
 	s := c16Style{Seed: r.Uint64()}
@@ -136,6 +145,7 @@ func c16RandomStyle(r *rand.Rand) c16Style {
 	s.CRLF = p(0.2)
 	s.ActSpace = p(0.3)
 	s.TokSpace = p(0.3)
+	s.ValSpace = p(0.3)
 	s.NoFinalNL = p(0.2)
 	if p(0.5) {
 		s.Split = c16Pick(r, c16Splits)
@@ -151,7 +161,7 @@ func c16SingleStyles(r *rand.Rand) []c16Style {
 		out = append(out, c16Style{DirCase: v}, c16Style{ActCase: v})
 	}
 	out = append(out, c16Style{Quote: 1}, c16Style{Quote: 2}, c16Style{RxQuote: 1}, c16Style{Cont: 1}, c16Style{Cont: 2},
-		c16Style{Indent: true}, c16Style{Comments: true}, c16Style{CRLF: true}, c16Style{ActSpace: true}, c16Style{TokSpace: true}, c16Style{NoFinalNL: true})
+		c16Style{Indent: true}, c16Style{Comments: true}, c16Style{CRLF: true}, c16Style{ActSpace: true}, c16Style{TokSpace: true}, c16Style{ValSpace: true}, c16Style{NoFinalNL: true})
 	for _, sp := range c16Splits {
 		out = append(out, c16Style{Split: sp, Files: 1 + r.IntN(4)})
 	}
@@ -241,10 +251,23 @@ func c16RenderTarget(t c16Target, st c16Style, r *rand.Rand) (string, []c16Delim
 }
 
 func c16RuleTokens(rule *c16Rule, st c16Style, r *rand.Rand) []c16Tok {
+	return c16RuleTokensNamed(rule, "", st, r)
+}
+
+// c16RuleTokensNamed: name overrides the directive name (SecDefaultAction takes an action list like SecAction).
+func c16RuleTokensNamed(rule *c16Rule, name string, st c16Style, r *rand.Rand) []c16Tok {
 	var toks []c16Tok
-	name := "SecRule"
-	if rule.NoOp {
-		name = "SecAction"
+	if name == "" {
+		name = "SecRule"
+		if rule.NoOp {
+			name = "SecAction"
+		}
+	}
+	valBlank := func() string {
+		if st.ValSpace && r.IntN(5) < 3 {
+			return c16Pick(r, []string{" ", "  ", "\t", " \t"})
+		}
+		return ""
 	}
 	toks = append(toks, c16Tok{s: c16Letter(r, st.DirCase, name), after: c16BSpace})
 	if !rule.NoOp {
@@ -284,6 +307,7 @@ func c16RuleTokens(rule *c16Rule, st c16Style, r *rand.Rand) []c16Tok {
 		if a.HasVal {
 			ds = append(ds, c16Delim{sb.Len(), "action-colon"})
 			sb.WriteByte(':')
+			sb.WriteString(valBlank())
 			v := string(a.Val)
 			if c16NeedsQuotes(v) || st.Quote == 1 || (st.Quote == 2 && r.IntN(2) == 0) {
 				ds = append(ds, c16Delim{sb.Len(), "value-open-quote"})
@@ -293,6 +317,7 @@ func c16RuleTokens(rule *c16Rule, st c16Style, r *rand.Rand) []c16Tok {
 			} else {
 				sb.WriteString(v)
 			}
+			sb.WriteString(valBlank())
 		}
 		tok := c16Tok{after: c16BComma}
 		if i == len(rule.Actions)-1 {
@@ -369,8 +394,26 @@ var c16CommentTexts = []string{"# comment", "#", "#SecRule ARGS \"@rx x\" \"id:1
 
 // c16Directives renders every directive of a description (chain links are directives of their own).
 func c16Directives(d *c16Desc, st c16Style, r *rand.Rand, nl string) []string {
-	var out []string
+	out, _ := c16DirectivesFlagged(d, st, r, nl)
+	return out
+}
+
+// c16DirectivesFlagged also says which directives are settings (compile to no rule).
+func c16DirectivesFlagged(d *c16Desc, st c16Style, r *rand.Rand, nl string) (out []string, setting []bool) {
+	defer func() {
+		for len(setting) < len(out) {
+			setting = append(setting, false)
+		}
+	}()
 	for _, it := range d.Items {
+		if it.Default != nil {
+			for len(setting) < len(out) {
+				setting = append(setting, false)
+			}
+			out = append(out, c16Assemble(c16RuleTokensNamed(&c16Rule{NoOp: true, Actions: it.Default}, "SecDefaultAction", st, r), st, r, nl, 0))
+			setting = append(setting, true)
+			continue
+		}
 		if it.Marker != "" {
 			m := it.Marker
 			if st.Quote == 1 || (st.Quote == 2 && r.IntN(2) == 0) {
@@ -385,7 +428,7 @@ func c16Directives(d *c16Desc, st c16Style, r *rand.Rand, nl string) []string {
 			depth++
 		}
 	}
-	return out
+	return out, setting
 }
 
 // ---------------------------------------------------------------------------------------------
@@ -424,7 +467,7 @@ func c16Render(d *c16Desc, st c16Style) *c16Config {
 	if st.CRLF {
 		nl = "\r\n"
 	}
-	dirs := c16Directives(d, st, r, nl)
+	dirs, isSetting := c16DirectivesFlagged(d, st, r, nl)
 	// join a slice of directives into file text
 	join := func(ds []string, last bool) string {
 		var sb strings.Builder
@@ -450,6 +493,32 @@ func c16Render(d *c16Desc, st c16Style) *c16Config {
 	}
 	if st.Split == "" {
 		return &c16Config{Parts: []string{join(dirs, true)}}
+	}
+	if st.Split == "include-settings" {
+		cfg := &c16Config{Files: map[string]string{}}
+		var main []string
+		for i, s := range dirs {
+			if !isSetting[i] {
+				main = append(main, s)
+				continue
+			}
+			n := fmt.Sprintf("s%d.conf", i)
+			kw := c16Letter(r, st.DirCase, "Include")
+			if r.IntN(5) < 2 {
+				// one level deeper
+				inner := fmt.Sprintf("s%d-inner.conf", i)
+				cfg.Files[inner] = s + nl
+				cfg.Files[n] = kw + " " + inner + nl
+			} else {
+				cfg.Files[n] = s + nl
+			}
+			main = append(main, kw+" "+n)
+		}
+		if len(cfg.Files) > 0 {
+			cfg.Parts = []string{join(main, true)}
+			return cfg
+		}
+		st.Split = "include-mid" // nothing to move: fall back to an ordinary split
 	}
 	k := st.Files
 	if k < 1 {
